@@ -453,7 +453,7 @@ func ABIArgumentToTypeString(typeName string, components abi.ParameterArray) str
 		suffix := typeName[5:]
 		children := make([]string, len(components))
 		for i, component := range components {
-			children[i] = ABIArgumentToTypeString(component.Type, nil)
+			children[i] = ABIArgumentToTypeString(component.Type, component.Components)
 		}
 		return "(" + strings.Join(children, ",") + ")" + suffix
 	}
